@@ -18,7 +18,8 @@ import (
 
 // C08: size limits and safe truncation, judged on the bytes the client
 // receives.  The handler response is generated from the query name
-// (s<N>[o].size.test: about N bytes, "o" = with an OPT of its own).
+// (s<N>[o[p]].size.test: about N bytes, "o" = with an OPT of its own, "op" =
+// with a padding option in it).
 
 type c08Query struct {
 	raw       []byte
@@ -46,7 +47,7 @@ func genC08Query(t *kernel.Tape, id uint16) (q c08Query) {
 	}
 	own := ""
 	if t.Chance(1, 3, "handler-opt") {
-		own = "o"
+		own = kernel.Pick(t, []string{"o", "o", "op"}, "handler-opt-kind")
 	}
 
 	m := &dns.Msg{}
@@ -171,7 +172,7 @@ func checkC08(tk *task, tr string, encrypted, stream bool, limit int, q c08Query
 		if opt.UDPSize() != q.udpSize {
 			w := tr + ": response OPT does not carry the client's UDP size"
 			_, _, _, _, own, _ := answerFor(q.msg.Question[0])
-			if !own {
+			if own == 0 {
 				w += " (handler response had no OPT)"
 			}
 			tk.Failf("C08/opt-udp-size", w, "%s %s: client advertised %d, response says %d",
